@@ -266,6 +266,9 @@ def run(ctx):
         case["ops"] = gen_ops(rng, case, be)
         case["backend"] = be
         case["masked_input"] = rng.choice([None, None, None, "none", "partial"])        # the constructor is handed a MaskedArray with no / a partial mask of its own
+        if be == "numpy" and case["masked_input"] is None and rng.random() < 0.2:
+            case["wide"] = True                                                          # a binary64 body; run 1 stores values beyond the binary32 range at the missing points
+            ctx.count("binary64 body with out-of-range values at missing points")
         plan["tf" if be in ("tf", "numpy_with_tf") else be].append(case)
     # planned cases, every run: normalize / normalize_distribution on each backend that offers them, with a reference point that is missing in one frame and
     # observed (together with the other) in another — the statistic must come from the observed frames only, whatever is stored at the missing one
